@@ -206,6 +206,7 @@ def prop_C13(run):
     rules_unit.span_shape(run)
     rules_unit.field_span_rule(run)
     rules_unit.operand_same_line(run)
+    rules_unit.match_text_rule(run)
     rules_unit.src_bind(run)
     rules_unit.expr_node_spans(run)
     rules_unit.line_column_counts(run)
